@@ -34,13 +34,15 @@ typedef struct bc_rec {
 	int      order[MAX_THR + 1], norder;
 } bc_rec;
 
+static tpt_p g_caller_known;
+static int g_caller_known_fiber;
 static bc_rec g_bc[MAX_BC];
 static int g_nbc;
 static int g_pool_sync_busy;
 
 static int fiber_of_thread(pool_w *pw, int idx) {
 	/* the worker fiber that registered thread idx as its current thread */
-	for (int f = 0; f < SIM_MAX_FIBERS; f++) if (sim_fiber_tls(f, 0) == (void *)pw->thr[idx]) return f;
+	for (int f = 0; f < SIM_MAX_FIBERS; f++) if (sim_fiber_has_tls_value(f, (void *)pw->thr[idx])) return f;
 	return -1;
 }
 
@@ -233,7 +235,8 @@ static void c10_exec(const op_t *op, int opidx) {
 	}
 	int pool = (int)item_get(it, "pool", 0), form = (int)item_get(it, "form", 0);
 	pool_w *pw = &W.pool[pool];
-	tpt_p cur = tpt_get_current();
+	/* who the caller is: the harness' own knowledge where it has it (inside a hook the hook's argument), else the library's */
+	tpt_p cur = (g_caller_known && g_caller_known_fiber == sim_self()) ? g_caller_known : tpt_get_current();
 	bc_rec *b;
 	uint32_t fl = (uint32_t)item_get(it, "flags", 0);
 	tpt_p src = item_get(it, "srcx", 0) ? cur : NULL;
@@ -357,9 +360,12 @@ static void c10_gen(plan_t *p, rng_t *r, int tier) {
 	item_set(&p->cfg, "threads2", n2);
 	item_set(&p->cfg, "actors", actors);
 	item_set(&p->cfg, "skipfirst", rng_chance(r, 200));
+	if (rng_chance(r, 120)) item_set(&p->cfg, "hookbc", 1 + (long long)rng_below(r, (uint64_t)n));
 	item_set(&p->cfg, "pipe", rng_chance(r, 300) ? 4096 : 65536);
 	item_set(&p->cfg, "waitstart", rng_chance(r, 600));
-	if (n > 1 && rng_chance(r, 150)) item_set(&p->cfg, "createfail", 1 + (long long)rng_below(r, (uint64_t)n));
+	/* (not together with a broadcast from a start hook: a message accepted for a slot that is STARTING and whose
+	 * pthread_create then fails for good has nobody to run it - that combination is the harness' own invention) */
+	if (n > 1 && rng_chance(r, 150) && !item_get(&p->cfg, "hookbc", 0)) item_set(&p->cfg, "createfail", 1 + (long long)rng_below(r, (uint64_t)n));
 	gen_sched(p, r, tier, 1);
 	for (int i = 0; i < nops; i++) {
 		unsigned k = (unsigned)rng_below(r, 100);
@@ -430,6 +436,22 @@ static void *c10_actor(void *arg) {
 	return NULL;
 }
 
+/* a broadcast issued from inside a worker's start hook: the caller IS a pool thread (the hook's argument says which) */
+static int g_hookbc_idx1;
+static void c10_start_hook(tpt_p tpt, int idx) {
+	op_t d;
+	if (g_hookbc_idx1 != idx + 1 || g_nbc >= MAX_BC) return;
+	g_hookbc_idx1 = 0;
+	memset(&d, 0, sizeof(d));
+	item_kind(&d.it, "bcast");
+	item_set(&d.it, "pool", 0); item_set(&d.it, "form", F_ASYNC);
+	item_set(&d.it, "flags", (long long)(W.plan->seed & 1 ? TP_BMSG_F_SELF_SKIP : 0));
+	sim_probe("bc.from_start_hook");
+	g_caller_known = tpt; g_caller_known_fiber = sim_self();
+	c10_exec(&d, -1);
+	g_caller_known = NULL;
+}
+
 static void c10_pre(const plan_t *p) {
 	world_reset(p);
 	W.msg_oracle = 0;
@@ -437,6 +459,9 @@ static void c10_pre(const plan_t *p) {
 	world_op_exec = c10_exec;
 	g_nbc = 0;
 	g_pool_sync_busy = 0;
+	g_caller_known = NULL;
+	g_hookbc_idx1 = (int)item_get(&p->cfg, "hookbc", 0);
+	W.start_hook_fn = g_hookbc_idx1 ? c10_start_hook : NULL;
 }
 
 static void *c10_root(void *arg) {
@@ -447,6 +472,12 @@ static void *c10_root(void *arg) {
 	if (n2 > MAX_THR) n2 = MAX_THR;
 	if (actors < 1) actors = 1; if (actors > MAX_ACTORS) actors = MAX_ACTORS;
 	sim_set_op(-2);
+	/* the option bits of the three flag families travel in one word: they must not overlap */
+	{
+		static const uint32_t fam[] = { TP_MSG_F_SELF_DIRECT, TP_MSG_F_FORCE, TP_MSG_F_FAIL_DIRECT, TP_BMSG_F_SELF_SKIP, TP_BMSG_F_SYNC, TP_BMSG_F_SYNC_USLEEP, TP_CBMSG_F_ONE_BY_ONE };
+		for (unsigned i = 0; i < sizeof(fam) / sizeof(fam[0]); i++) for (unsigned j = i + 1; j < sizeof(fam) / sizeof(fam[0]); j++)
+			if (fam[i] & fam[j]) { sim_violation("bc-flag-overlap", "message/broadcast option bits %x and %x overlap: one option switches another on", fam[i], fam[j]); return NULL; }
+	}
 	if (0 != world_create_pool(0, n, 0, 1)) { sim_violation("setup-failed", "tp_create failed in a fault-free setup"); return NULL; }
 	if (n2 > 0 && 0 != world_create_pool(1, n2, 0, 1)) { sim_violation("setup-failed", "tp_create (second pool) failed"); return NULL; }
 	{
@@ -464,6 +495,34 @@ static void *c10_root(void *arg) {
 	bc_check_all(1);
 	if (g_nbc > 0) sim_mark_interesting();
 	W.teardown = 1;
+	if (sim_violated() || !item_get(&p->cfg, "lateprobe", 1) || g_nbc >= MAX_BC) return NULL;
+	/* after the traffic: every worker has visibly left its loop (its stop hook is running) - a broadcast now can reach
+	 * nobody: nothing is sent, everybody is counted as failed, no callback ever runs */
+	{
+		pool_w *pw = &W.pool[0];
+		op_t d;
+		bc_rec *b;
+		int left = 1;
+		W.slow_stop_hook_ns = 300000;
+		tp_shutdown(pw->tp);
+		for (int round = 0; round < 2000 && left && !sim_violated(); round++) {
+			left = 0;
+			for (int i = 0; i < pw->n; i++) if (!pw->never_started[i] && pw->stop_cnt[i] == 0) left++;
+			if (left) sim_sleep_ns(20000, "c10.late_probe");
+		}
+		if (left || sim_violated()) return NULL;
+		memset(&d, 0, sizeof(d));
+		item_kind(&d.it, "bcast");
+		item_set(&d.it, "pool", 0); item_set(&d.it, "form", F_ASYNC); item_set(&d.it, "flags", 0);
+		sim_probe("bc.to_stopping_pool");
+		c10_exec(&d, -1);
+		if (sim_violated()) return NULL;
+		b = &g_bc[g_nbc - 1];
+		if (b->sent != 0 || b->failed != (size_t)pw->n) { sim_violation("bc-sent-to-stopping", "broadcast to a pool whose workers have all left their loops reported sent %zu failed %zu (pool of %d): the accepted messages can never be delivered", b->sent, b->failed, pw->n); return NULL; }
+		if (b->rc != ESPIPE) { sim_violation("bc-bad-errno", "broadcast that could not send a single message returned %d, documented is ESPIPE", b->rc); return NULL; }
+		sim_wait_idle(50000000ull);
+		for (int i = 0; i < pw->n; i++) if (b->exec_count[i]) { sim_violation("bc-ran-on-stopped", "broadcast callback ran for thread %d which had left its loop", i); return NULL; }
+	}
 	return NULL;
 }
 
